@@ -15,9 +15,17 @@ for d in seeded/${1:-}*/; do
     out=$(VERIF_REPO=$WT timeout 3000 ./check $pid --no-evidence 2>&1)
     if echo "$out" | grep -q '^VIOLATION'; then
       echo "$name ($pid): CAUGHT  $(echo "$out" | grep '^VIOLATION' | head -1 | sed 's/replay=.*json//')"
+      res="CAUGHT"; echo "$out" | grep '^VIOLATION' | head -1 | grep -q no-failing-input-found && res="CAUGHT (no-failing-input-found)"
+      what=$(echo "$out" | grep -A1 '^VIOLATION' | sed -n 2p | cut -c1-400)
     else
-      echo "$name ($pid): MISSED"
+      echo "$name ($pid): MISSED"; res="MISSED"; what=""
     fi
+    python3 - "$d/meta.json" "$res" "$what" <<'PY'
+import json,sys,datetime
+p,res,what=sys.argv[1:4]
+m=json.load(open(p)); m["last_check"]={"result":res,"reported":what,"date":datetime.date.today().isoformat()}
+json.dump(m,open(p,"w"),indent=1)
+PY
   fi
   git -C /repo worktree remove --force $WT
 done
